@@ -35,7 +35,8 @@ EXTENDS Sinc, FiniteSets, TLC, Json, IOUtils, SequencesExt
 CONSTANTS MaxDepth, MaxResets,
           BigDepths,   \* large depths that are model-checked too (straight histories)
           MaxZ,        \* exact-zero frames per behaviour (small depths)
-          GridDepths   \* large depths for which grid stimuli are written
+          GridDepths,  \* large depths for which grid stimuli are written
+          NearDepths   \* depths (>= 4) for which the positions next to the grid / near-integer converter phases are written
 VARIABLES mode,     \* "direct" | "conv"
           depth,
           s,        \* layer 2: the interpolator (direct) / the converter's interpolator
@@ -236,7 +237,45 @@ ClinStim == UNION { UNION { { LET fc == LinFmtSeq[((d + ri + z) % Len(LinFmtSeq)
                                  \o [i \in 1..nout |-> NextEv]
                               : z \in {d, d + 1, 2 * d} } : ri \in 1..Len(Ratios) } : d \in 1..MaxDepth }
 
-Stimuli == DirectStim \cup ConvStim \cup TailStim \cup BigConvStim \cup BigDirectStim
+\* round 5: the clauses "at ANY fractional position": positions right next to the grid.  (a) direct: a primed constant
+\* buffer interpolated at 1 - 2^-k for every k = 1..53 (the last one is the largest double below 1) and at 2^-k for
+\* every k = 1..53 and on down to the smallest subnormal; then, after a clear, while priming with distinct frames
+\* (finite, = fresh twin).  Constant frames: 1/8 full scale for i16, 1/10 for i32 (no tap sum overflows).
+PosF(kd, k) == [ev |-> "interpf", a |-> [kind |-> kd, k |-> k]]
+TinyKs == << 54, 55, 64, 100, 537, 1022, 1023, 1073, 1074 >>
+NearOps == [k \in 1..53 |-> PosF("onem", k)] \o [k \in 1..53 |-> PosF("pow", k)] \o [i \in 1..Len(TinyKs) |-> PosF("pow", TinyKs[i])]
+ConstN(fc) == IF fc[1] = "i32" THEN 200 ELSE 3800
+ConstF(fc) == [c \in 1..fc[2] |-> (IF c = 1 THEN 1 ELSE -1) * (ConstN(fc) + 16 * c)]
+SmallVal(fc, j) == [c \in 1..fc[2] |-> (IF j % 2 = 0 THEN 1 ELSE -1) * ((ConstN(fc) \div 8) * ((j % 7) + 1) + c)]
+NearGridOps(d, fc) ==
+  << Interp(0) >> \o [i \in 1..(2 * d) |-> [ev |-> "push", a |-> [v |-> ConstF(fc)]]] \o << Interp(0) >> \o NearOps
+  \o << [ev |-> "clear", a |-> [x |-> 0]], PosF("onem", 53), PosF("pow", 1074) >>
+  \o [i \in 1..(4 * (d + 2)) |-> CASE i % 4 = 1 -> [ev |-> "push", a |-> [v |-> SmallVal(fc, (i + 3) \div 4)]]
+                                    [] i % 4 = 2 -> PosF("onem", 53 - ((i \div 4) % 3))
+                                    [] i % 4 = 3 -> PosF("pow", 50 + (i \div 4))
+                                    [] OTHER -> Interp(0)]
+NearFmts == { << "f64", 1 >>, << "f32", 2 >>, << "i16", 1 >>, << "i32", 1 >>, << "f64", 2 >>, << "u16", 1 >> }
+NearGridStim == { << [ev |-> "reset", comp |-> "sinc", cfg |-> [depth |-> d, fmt |-> fc[1], ch |-> fc[2]]] >> \o NearGridOps(d, fc)
+                  : d \in NearDepths, fc \in NearFmts }
+\* (b) through the Converter: ratios whose accumulated phase comes within a few ulp of an integer by itself -
+\* from below (1/10: output 10 is at 1 - 2^-53; 3/10, 7/10, 1/7, 2/3) and from above (11/10, 1/9) -, over constant
+\* sources (a and b constant, hence a + b and 2^k a too), read until 2 depth + 14 frames have been pulled
+NearRatios == << << 1, 10 >>, << 3, 10 >>, << 7, 10 >>, << 1, 7 >>, << 2, 3 >>, << 11, 10 >>, << 1, 9 >> >>
+ConstClinStim ==
+  { LET rt == NearRatios[ri]
+        fc == LinFmtSeq[((d + ri) % Len(LinFmtSeq)) + 1]
+        len == 2 * d + 14
+        nout == ((len * rt[2]) \div rt[1]) + 1
+        ca == [c \in 1..fc[2] |-> 1400 + 64 * c]
+        cb == [c \in 1..fc[2] |-> 0 - (500 + 32 * c)]
+    IN << [ev |-> "reset", comp |-> "sinc_clin",
+           cfg |-> [depth |-> d, fmt |-> fc[1], ch |-> fc[2], k |-> (IF IsFloatFmt(fc) THEN ri - 4 ELSE (ri % 3) - 1),
+                    num |-> rt[1], den |-> rt[2], ctor |-> Ctors[((d + ri) % 3) + 1],
+                    a |-> [i \in 1..len |-> ca], b |-> [i \in 1..len |-> cb]]] >>
+       \o [i \in 1..nout |-> NextEv]
+    : ri \in 1..Len(NearRatios), d \in { x \in NearDepths : x <= 8 } }
+
+Stimuli == NearGridStim \cup ConstClinStim \cup DirectStim \cup ConvStim \cup TailStim \cup BigConvStim \cup BigDirectStim
            \cup ZeroRunStim \cup SpecialStim \cup ClinStim
 WriteStimuli ==
   IF "STIM_OUT" \in DOMAIN IOEnv
